@@ -69,6 +69,7 @@ static Verdict run(const Case &c) {
     std::vector<Bytes> icon_cands = {icon_ok ? cur_icon : empty};
     Bytes friendly = (h.fail & VG_FRIENDLY) ? empty : h.friendly;
     Bytes hwid = (h.fail & VG_HWID) ? empty : h.hwid;
+    if (hwid.size() > 64) hwid.resize(64);   // the core hands the platform a 64-byte buffer: at most 32 code units are retrievable
     int boundary_calls = 0, multi = 0, calls = 0, reasm = 0, icon_refetch = 0;
     auto cands_for = [&](uint8_t type) {
         std::vector<const Bytes *> r;
@@ -213,6 +214,7 @@ static bool grid(const Args &a, Evidence &ev, size_t mtu, const std::vector<size
 int main(int argc, char **argv) {
     Args a = parse_args(argc, argv);
     if (!a.replay.empty()) return replay_case(a, run);
+    zygote_start(run);   // before any code under test runs in this process
     Current::install(a.failing);
     Evidence ev;
     ev.rule = "(1) generated sequences on one instance: QueryLargeTlv(type from {0x0E,0x11,0x13, others}, offset from boundary dictionary around size and chunk multiples, seq incl. 0, "
@@ -247,7 +249,8 @@ int main(int argc, char **argv) {
             uint32_t salt = (uint32_t)*gx::range<int>(0, 1000000);
             h.icon = pattern((size_t)*size_gen(), salt);
             h.friendly = pattern((size_t)*size_gen(), salt + 1);
-            h.hwid = hwid_pattern((size_t)*gx::bnd({0, 1, 31, 32}, 0, 32, 1, 1), salt);
+            h.hwid = hwid_pattern((size_t)*gx::bnd({0, 1, 31, 32, 33, 36}, 0, 40, 1, 1), salt);
+            h.untrunc = (int)*gx::pick({0, 0, 1});
             h.icon_state = (int)*gx::pick({1, 1, 1, 1, 0});
             h.fail = (uint32_t)*gx::pick({0, 0, 0, 0, 0, 0, (int64_t)VG_ICON, (int64_t)VG_FRIENDLY, (int64_t)VG_HWID});
             Case c; h.to_case(c);
